@@ -182,7 +182,7 @@ pub fn cmd_matrix(a: &[String]) {
     let mut rng = Rng::new(seed ^ 0xA11CE);
     match kind {
         "c10" => {
-            for class in 0..9 {
+            for class in 0..12 {
                 // classes 5..8: partly configured hubs (the owner registers the other contracts in
                 // separate transactions): no registry / no dispatcher / no tokens / no airdrop+reward
                 let partial: Option<[Option<Id>; 7]> = match class {
@@ -203,6 +203,18 @@ pub fn cmd_matrix(a: &[String]) {
                     for op in evolve() {
                         out.step(&op);
                     }
+                }
+                // classes 9..11: after the system has been in use the owner re-points a sibling
+                // address: the reward contract to an address that is no hub, the dispatcher and
+                // the registry to another account
+                if class == 9 {
+                    out.step(&tx(OWNER, REWARD, Call::Reward(RewMsg::UConfig(Some(SINK), None, None))));
+                }
+                if class == 10 {
+                    out.step(&tx(OWNER, DISP, Call::Disp(DispMsg::UConfig(Some(6), None, None, None, None, None))));
+                }
+                if class == 11 {
+                    out.step(&tx(OWNER, REG, Call::Reg(RegMsg::UConfig(Some(6)))));
                 }
                 if class == 2 {
                     for op in transfer_ownership(true) {
